@@ -232,9 +232,16 @@ Bytes gen(Src &s, size_t n, int style, bool nz)
     return b;
 }
 // length schedule: 0..8, 0..32, 0..96, (thorough) 0..1024; big: favour the long ones
+// (the all_long target: lengths around 256 and 512 and up to 1100 in every tier)
+static bool g_long = false;
 size_t pick_len(Src &s, bool big = false)
 {
     size_t w = big ? s.weighted({2, 2, 5, 1}) : s.weighted({4, 3, 2, 1});
+    if (g_long)
+    {
+        static const int lo_[4] = {250, 0, 508, 0}, hi_[4] = {262, 300, 520, 1100};
+        return (size_t)s.range(lo_[w], hi_[w]);
+    }
     if (w == 3 && !tier())
         w = 2;
     static const int hi[4] = {8, 32, 96, 1024};
@@ -951,7 +958,7 @@ void f_memcpy(Src &s, Case &c)
     else
     {
         // aimed at the word-copy path: both pointers long-aligned, n >= 4 words
-        n = 4 * sizeof(long) + (size_t)s.range(0, tier() && s.chance(1, 6) ? 1000 : 72);
+        n = 4 * sizeof(long) + (size_t)s.range(0, (tier() || g_long) && s.chance(1, g_long ? 2 : 6) ? 1000 : 72);
         so = s.coin() ? 8 : 0;
         doff = s.coin() ? 8 : 0;
     }
@@ -1873,6 +1880,19 @@ C08_T(strndup, "n below/equal/above length, SIZE_MAX, unterminated arrays of exa
 C08_T(strlwr, "letters, bytes next to the letter ranges, bytes >= 0x80; non-trivial = at least one character changes");
 C08_T(strupr, "as strlwr; non-trivial = at least one character changes");
 VP_TARGET("all", f_all, "first choice selects one of the 31 functions, then that function's generator and rule");
+void f_all_long(Src &s, Case &c)
+{
+    struct G
+    {
+        G() { g_long = true; }
+        ~G() { g_long = false; }
+    } g;
+    f_all(s, c);
+    c.label("long_operands");
+}
+VP_TARGET("all_long", f_all_long,
+          "the 31 functions with the length schedule moved to 250..262 / 0..300 / 508..520 / 0..1100 (operands longer than any one-byte "
+          "counter, word loops of hundreds of iterations); same generators and rules otherwise");
 VP_TARGET("str_enum", f_enum,
           "exhaustive: every pair of 5-byte (thorough: 6-byte) arrays over {00,'a','A',FF} through every "
           "two-string function, every n, strtok(_r) with the second as delimiters; every single array "
